@@ -81,7 +81,7 @@ Check(e) ==
       sfx == IF panicked THEN "_after_panic" ELSE ""
   IN /\ Diff(l, "pan", res'.pan, e.o.pan)
      /\ (IF res'.pan = e.o.pan THEN Diff(l, "r", res'.r, e.o.r) ELSE TRUE)
-     /\ Diff(l, "b" \o sfx, BaseDump(base'), e.b)
+     /\ Diff(l, "b", BaseDump(base'), e.b)                 \* also after a panic: out of gas = no effect
      /\ (IF \E j \in 1..Len(stack') : stack'[j].t = "gas" THEN
            (IF GasExactIn(stack') /\ res'.pan # "GasOverflow" THEN Diff(l, "gas" \o sfx, res'.gas, e.o.gas) ELSE TRUE)
          ELSE Diff(l, "gas", 0, e.o.gas))
